@@ -192,7 +192,8 @@ def main():
         for r in rs:
             results.append(r)
             flag = r["status"]
-            if flag in ("MISSED", "FALSE-ALARM", "error"):
+            if flag in ("MISSED", "FALSE-ALARM", "error", "skipped"):
+                # on the unchanged tree every variant must apply; a skipped one means the corpus went stale
                 bad += 1
             print("%-4s %-38s %-8s %-20s %s" % (prop, r["id"], r["kind"], flag, r.get("detail", "") if flag not in ("caught", "silent") else ",".join(r.get("new_violations", []))[:150]))
     if args.out:
